@@ -1628,3 +1628,148 @@ def _class_tracks(core, cname, attr):
                     if any(self_attr(t) == attr for t in ts):
                         return True
     return False
+
+
+def k26_cli_requested_forms(core, rep):
+    """The forms handed to Solver.solve() by the command line are exactly the forms named with the option:
+    (a) the CLI passes args.<dest> itself to <solver>.solve(); (b) nothing in the CLI assigns to or mutates
+    args.<dest>; (c) the option that fills <dest> collects values (append / nargs) and declares no default
+    and no const - argparse appends the user's values to a non-empty default list."""
+    cli = 'habutax/__init__.py'
+    f = core.func(cli, None, 'solve')
+    arg0 = f.node.args.args[0].arg
+    calls = [c for c in calls_in(f.node) if call_name(c) == 'solve' and isinstance(c.func, ast.Attribute)]
+    if len(calls) != 1 or not calls[0].args:
+        raise AnalysisError('CLI solve(): the call to Solver.solve() was not found (anchor vanished)')
+    a = calls[0].args[0]
+    if isinstance(a, ast.Call) and call_name(a) in ('list', 'tuple') and len(a.args) == 1 and not a.keywords:
+        a = a.args[0]          # a plain copy
+    direct = isinstance(a, ast.Attribute) and isinstance(a.value, ast.Name) and a.value.id == arg0
+    rep.ob('K26', 'cli-passes-the-named-forms', direct,
+           f'the command line hands `{unparse(a, 60)}` to Solver.solve() instead of the list of forms named on the command line: forms are added to or dropped from the request', _w(f, calls[0]))
+    if not direct:
+        return
+    dest = a.attr
+    # (b) no writes to args.<dest>
+    bad = []
+    for g in core.funcs:
+        if g.rel != cli:
+            continue
+        for x in ast.walk(g.node):
+            if isinstance(x, (ast.Assign, ast.AugAssign, ast.Delete)):
+                ts = x.targets if not isinstance(x, ast.AugAssign) else [x.target]
+                for t in ts:
+                    base = t.value if isinstance(t, ast.Subscript) else t
+                    if isinstance(base, ast.Attribute) and base.attr == dest and not self_attr(base):
+                        bad.append((g, x))
+            if isinstance(x, ast.Call) and isinstance(x.func, ast.Attribute) and x.func.attr in MUTATORS \
+                    and isinstance(x.func.value, ast.Attribute) and x.func.value.attr == dest:
+                bad.append((g, x))
+    rep.ob('K26', 'cli-does-not-edit-the-request', not bad,
+           f'the command line changes the list of requested forms before solving ({unparse(bad[0][1], 60) if bad else ""})', _w(bad[0][0], bad[0][1]) if bad else _w(f))
+    # (c) the option declaration
+    decl = []
+    for g in core.funcs:
+        if g.rel != cli:
+            continue
+        for c in calls_in(g.node):
+            if call_name(c) != 'add_argument':
+                continue
+            kws = {k.arg: k.value for k in c.keywords if k.arg}
+            names = [x.value for x in c.args if isinstance(x, ast.Constant) and isinstance(x.value, str)]
+            d = kws['dest'].value if 'dest' in kws and isinstance(kws['dest'], ast.Constant) else None
+            if d is None and names:
+                d = names[-1].lstrip('-').replace('-', '_')
+            if d != dest:
+                continue
+            # only the parser of the solve sub-command: the receiver name is the one whose other options solve() reads
+            decl.append((g, c, kws))
+    mine = [x for x in decl if any(isinstance(k, ast.Constant) and k.value == 'append' for k in [x[2].get('action')]) or 'nargs' in x[2]]
+    if not mine:
+        raise AnalysisError(f'CLI: the option filling args.{dest} was not found (anchor vanished)')
+    for (g, c, kws) in mine:
+        dv = kws.get('default')
+        empty = dv is None or _const(dv, None) or (isinstance(dv, (ast.List, ast.Tuple)) and not dv.elts)
+        rep.ob('K26', f'option-{dest}-has-no-preset', empty and 'const' not in kws,
+               f'the option that collects the requested forms presets `{unparse(dv, 40) if dv is not None else unparse(kws.get("const"), 40)}`: argparse appends the forms named by the user to that list, so a form nobody asked for is solved and written to the solution', _w(g, c))
+
+
+COMPLETE_OPS = ('join', 'sorted', 'set', 'list', 'tuple', 'frozenset', 'fromkeys', 'str', 'repr', 'format', 'map', 'len')
+
+
+def k27_complete_diagnostics(core, rep):
+    """The failure report names every item of every diagnostic: the collections returned by the solver's three
+    diagnostic getters reach print() only through operations that keep all elements (join, sorted, set, list,
+    dict.fromkeys, formatting, a loop over all items).  A slice, an index, islice/next/pop, or a helper that does one
+    of these makes the report depend on the order in which lines were attempted (and hides blocked lines)."""
+    cli = 'habutax/__init__.py'
+    f = core.func(cli, None, 'solve')
+    getters = ('unimplemented_fields', 'unmet_input_dependencies', 'unmet_field_dependencies')
+    by_name = {}
+    for g in core.funcs:
+        if g.rel == cli and g.cls is None:
+            by_name[g.name] = g
+    n_seen = 0
+
+    def truncations(fn, names, depth=0):
+        """-> list of (FuncInfo, node) where a name derived from `names` loses elements"""
+        derived = set(names)
+        changed = True
+        while changed:
+            changed = False
+            for x in ast.walk(fn.node):
+                tgt = None
+                if isinstance(x, ast.Assign) and len(x.targets) == 1:
+                    tgt, val = x.targets[0], x.value
+                elif isinstance(x, ast.For):
+                    tgt, val = x.target, x.iter
+                elif isinstance(x, ast.comprehension):
+                    tgt, val = x.target, x.iter
+                if tgt is None:
+                    continue
+                if any(isinstance(n, ast.Name) and n.id in derived for n in ast.walk(val)):
+                    for n in ast.walk(tgt):
+                        if isinstance(n, ast.Name) and n.id not in derived:
+                            derived.add(n.id)
+                            changed = True
+        out = []
+        for x in ast.walk(fn.node):
+            if isinstance(x, ast.Subscript) and isinstance(x.value, ast.Name) and x.value.id in derived and isinstance(getattr(x, 'ctx', None), ast.Load):
+                # d[key] on a dict of diagnostics is a lookup, not a truncation, when the key is itself derived from it
+                if isinstance(x.slice, ast.Slice) or (isinstance(x.slice, ast.Constant) and isinstance(x.slice.value, int)) \
+                        or (isinstance(x.slice, ast.UnaryOp) and isinstance(x.slice.operand, ast.Constant)):
+                    out.append((fn, x))
+            if isinstance(x, ast.Call):
+                nm = call_name(x)
+                uses = [a for a in x.args if any(isinstance(n, ast.Name) and n.id in derived for n in ast.walk(a))]
+                if not uses:
+                    if isinstance(x.func, ast.Attribute) and isinstance(x.func.value, ast.Name) and x.func.value.id in derived and nm in ('pop', 'popitem', 'remove', 'clear'):
+                        out.append((fn, x))
+                    continue
+                if nm in ('islice', 'next', 'min', 'max', 'head', 'choice', 'sample', 'takewhile', 'dropwhile', 'filter'):
+                    out.append((fn, x))
+                elif nm in by_name and depth < 3 and isinstance(x.func, ast.Name):
+                    g = by_name[nm]
+                    params = [a.arg for a in g.node.args.args]
+                    passed = [params[i] for i, a in enumerate(x.args) if i < len(params) and a in uses]
+                    out.extend(truncations(g, passed, depth + 1))
+            if isinstance(x, ast.Delete):
+                for t in x.targets:
+                    if isinstance(t, ast.Subscript) and isinstance(t.value, ast.Name) and t.value.id in derived:
+                        out.append((fn, x))
+        return out
+
+    for getter in getters:
+        var = None
+        for n in ast.walk(f.node):
+            if isinstance(n, ast.Assign) and isinstance(n.value, ast.Call) and call_name(n.value) == getter and isinstance(n.targets[0], ast.Name):
+                var = n.targets[0].id
+        if var is None:
+            continue          # K1b reports a getter that is not printed at all
+        n_seen += 1
+        tr = truncations(f, [var])
+        rep.ob('K27', f'report-names-every-item/{getter}', not tr,
+               f'the failure report drops items of Solver.{getter}(): `{unparse(tr[0][1], 60) if tr else ""}` in {tr[0][0].qual if tr else ""} keeps only part of the collection, '
+               f'and which part depends on the order in which the solver attempted the lines', _w(tr[0][0], tr[0][1]) if tr else _w(f))
+    if n_seen < 3:
+        raise AnalysisError('CLI solve(): the diagnostic getters are no longer all read into variables (anchor vanished)')
